@@ -376,6 +376,22 @@ func c17Variants(base *c17Spec, bi int) []c17Variant {
 			out = append(out, c17Variant{Name: name("ambiguous-alias@%s", st.name), Spec: c, Fault: len(c.Decls) - 1, Fault2: -1})
 		}
 	}
+	// a literal alias exists only for a token whose whole body is one plain
+	// literal; the same literal under a cardinality defines none
+	for _, st := range sites {
+		for ci, card := range []string{"+", "*", "?"} {
+			c := base.clone()
+			p := freshPat()
+			c.Decls = append(c.Decls, lx1(st.mode, st.file, "tok", "CARD = "+p+card))
+			c.Decls = append(c.Decls, pr1(st.file, "fault", "uc = "+tokN+" "+p))
+			out = append(out, c17Variant{Name: name("alias-of-repeated-literal-%d@%s", ci, st.name), Spec: c, Fault: len(c.Decls) - 1, Fault2: -1})
+			// and it does not make the alias of a plain-literal token ambiguous
+			c = base.clone()
+			c.Decls = append(c.Decls, lx1("", 0, "tok", "PLAIN = "+p), lx1("CardMode", st.file, "tok", "CARD = "+p+card))
+			c.Decls = append(c.Decls, pr1(st.file, "use", "uc = "+tokN+" "+p))
+			out = append(out, c17Variant{Name: name("alias-next-to-repeated-literal-%d@%s", ci, st.name), Spec: c, Fault: -1, Fault2: -1, Benign: true})
+		}
+	}
 	// three and four tokens sharing one literal (one per mode / file), used by the parser
 	for n := 3; n <= 4; n++ {
 		for f := 0; f < 2; f++ {
@@ -522,7 +538,7 @@ func init() {
 		ID:    "C17",
 		Level: "fault_enumeration",
 		Rule: "two well-formed base specifications (tokens, fragments with every action, nested macros, modes, @external, literal aliases, @list, ? * + *!, @error, two files) and their benign variants (adjacent swaps, every declaration moved to the other file, extra declarations at every site) must be accepted; " +
-			"every single fault of the catalogue (duplicate name for every pair of kinds, every naming-rule breach, every undefined or wrong-kind reference, ambiguous alias, macro cycles of length 1-3, zero/two @start, @discard/@emit misuse, empty literal, reversed ranges) placed at every applicable site (default mode, inside a mode, second file, second file inside a mode, macro body, group, @list, later alternative) must be rejected with a diagnostic positioned inside the faulty declaration; non-trivial = one fault variant",
+			"every single fault of the catalogue (duplicate name for every pair of kinds, every naming-rule breach, every undefined or wrong-kind reference, ambiguous alias, alias of a literal that stands under a cardinality, macro cycles of length 1-3, zero/two @start, @discard/@emit misuse, empty literal, reversed ranges) placed at every applicable site (default mode, inside a mode, second file, second file inside a mode, macro body, group, @list, later alternative) must be rejected with a diagnostic positioned inside the faulty declaration; non-trivial = one fault variant",
 		Assume: []string{"the harness prints the text and therefore knows each declaration's file and line span", "only the front end (parse, analysis, LALR construction) is run; all the listed faults are detected there"},
 		Worker: c17Worker,
 		Replay: c17Replay,
